@@ -79,7 +79,9 @@ class C18(Prop):
         "fisherYates_via_rolls", "fisherYates_bijective_on_rolls", "vecShuffle64_via_rolls", "rsqSample_uniform", "iidUniform_exact", "bootstrap_exact",
         "roll_on_generator_words", "roll_returns_spec", "roll_progress", "roll_reaches_every_value", "dpRetry_accepting_words_exist", "dpPass_on_words_via_rolls", "roll64_progress", "permuteSeqOrder_index_spec",
         "shuffle_inplace_eq_separate", "xShuffle_inplace_eq_separate", "shuffleKmers_inplace_eq_separate", "shuffleWindows_inplace_eq_separate",
-        "xShuffleWindows_inplace_eq_separate", "msaShuffle_inplace_eq_separate", "qrna_inplace_eq_separate", "roll_returns_from_poked_state")]
+        "xShuffleWindows_inplace_eq_separate", "msaShuffle_inplace_eq_separate", "qrna_inplace_eq_separate", "roll_returns_from_poked_state",
+        "dchoose_returns", "iid_never_fatal", "markov1_counts_exact", "cMarkov0_einval_or_ok", "xMarkov0_einval_or_ok", "cMarkov1_einval_or_ok", "xMarkov1_einval_or_ok",
+        "dchoose_inverse_cdf", "markov0_frequencies_exact", "markov1_conditional_exact")]
     claimed = True
     technique = ("Lean 4 proof (Fisher-Yates/swap-loop invariants, permutation and support theorems for every generator state) + "
                  "exact differential correspondence of the executable model (on the C09 generator model) with the ASan/UBSan-built C code + python property monitors on the C output")
@@ -99,13 +101,19 @@ class C18(Prop):
                   "rollOn n ws is esl_rnd_Roll's do/while reading 32-bit words from a list; the model on the C09 generator IS rollOn on the words the generator delivers (roll_on_generator_words); if it returns, "
                   "v < n is the image of the first accepted word and exactly the words up to it are consumed (roll_returns_spec); after ANY finite run of rejected words more than 2^31 of the 2^32 possible "
                   "next words make it return and every value v < n is reachable (roll_progress, roll_reaches_every_value; 64-bit twin roll64_progress); for the DP retry an explicit finite list of 32-bit words "
-                  "exists on which a pass, reading every roll through the rejection loop, selects last edges that the code's connectivity test accepts (dpRetry_accepting_words_exist).")
+                  "exists on which a pass, reading every roll through the rejection loop, selects last edges that the code's connectivity test accepts (dpRetry_accepting_words_exist); from every MT state the "
+                  "state differing in the one table word tempered next lets Roll return at once (roll_returns_from_poked_state). esl_fatal unreachable: read over the rationals, for every input and "
+                  "every generator state the Markov-0/1 resamplers return eslEINVAL (exactly on invalid residues) or eslOK - never DChoose's `unreached code` branch; for Markov-1 this is the content of the "
+                  "circularisation (markov1_bug family): count matrix characterised exactly (entry = number of circular adjacent pairs), every reachable residue has a positive row; DChoose is the inverse CDF "
+                  "(returns k exactly for a roll in the k-th cumulative bracket, length p_k/sum), emission vectors are exactly count/L and count(x,y)/count(x,.). In place = separate output storage is a theorem "
+                  "for CShuffle/XShuffle/k-mers/windows/column shuffle/QRNA (all four xs/ys aliasings) over an explicit storage model (Out.load), besides the alias-aware reverse and VShuffle; the name index "
+                  "rebuilt by PermuteSequenceOrder maps every (distinct) name to its new row (model of Reuse+Store, compared exactly incl. duplicated names).")
     level_note = ("Trusted: Lean kernel + propext/Classical.choice/Quot.sound; fidelity of the hand model is checked (not proved) by the differential run; esl_rnd_Roll's rejection loop and the DP "
                   "shuffle's retry loop are modelled with fuel: termination for every stream is false; proved instead: per-draw rejection set < half of the words, and an accepting roll vector exists for every pass "
                   "(positive success probability per pass; no probability theory is formalised); the bijection theorems are statements about roll vectors, equal likelihood of roll values is C09's roll_unbiased32; Markov/IID support theorems are over four arithmetic laws (L1 a+0=a, L2 0/d=0 for d>0, L3 0/(double)n=0 for n>0, "
                   "L4 x/2^32 is never < 0/norm; class LawfulCNum, rationals are a proved instance) that binary64 is TRUSTED to satisfy - they are IEEE-754 facts Lean cannot prove about its opaque Float; "
                   "the instances used are listed in Shuffle/FloatLaws.lean and the op `fplaws` evaluates every one of them (in C doubles and in Lean Float) on the values the next Markov/IID call encounters "
-                  "(counts in the evidence file: fplaws_calls / fplaws_instances_checked; `bad` must be 0) - support on executed values only; zero-length pairwise alignments raise Easel's zero-size-allocation exception (modelled, outside the quantifier).")
+                  "(counts in the evidence file: fplaws_calls / fplaws_instances_checked; `bad` must be 0) - support on executed values only; the never-esl_fatal theorems are proved over the rationals and need a fifth IEEE fact for binary64 (L5 norm/norm = 1.0 for a finite positive norm, x/2^32 < 1.0 - also monitored by `fplaws`); zero-length pairwise alignments raise Easel's zero-size-allocation exception (modelled, outside the quantifier).")
     diverge_is_violation = False
     quick_budget_s = 90
     trusted_base = ["hand model of esl_randomseq.c / esl_msashuffle.c / esl_vectorops.c shufflers tied by exact differential run (h_randomseq.c, ASan+UBSan build of the working tree)",
@@ -746,6 +754,9 @@ class C18(Prop):
         return {"input_distribution": {"sampled_cases": n, "ops": dict(ops), "sequence_lengths": dict(lens)},
                 "window_roll_range_read_from_tree": getattr(self, "_win", None),
                 "fplaws_calls": self._laws[0], "fplaws_instances_checked": self._laws[1],
-                "mutations_caught": "see final report: 14 hand mutations of esl_randomseq.c/esl_msashuffle.c/esl_random.c, all non-equivalent ones reported"}
+                "mutations_caught": "round 4: automatic single-site sweep (tools/mutsweep.py) over esl_msashuffle.c and the modelled functions of esl_randomseq.c: 110 mutants, 91 killed, 19 survivors all classified "
+                                    "equivalent (ctype loop bounds where the class is false at 0/127/128, redundant stores, error-path-only statements, message strings, larger allocations, a renormalisation DChoose repeats); "
+                                    "13 hand mutants of the newly covered code (index rebuild, sparse per-sequence markup guards, xs/ys copy aliasing, DChoose/FChoose normalisation, VShuffle gap test) all killed, "
+                                    "1 harmless refactoring passed; earlier rounds: 35 hand mutations, 33 killed, 2 equivalent"}
 
 SPEC = C18()
